@@ -1,6 +1,6 @@
 #pragma once
 #include "cp_ecdsa.h"
 const void *g_r, *g_s, *g_q;
-int g_sign_r, g_sign_s, g_zero_r, g_zero_s, g_cmp_r, g_cmp_s, g_oncurve, g_infty, g_cmpsec;
+int g_sign_r, g_sign_s, g_zero_r, g_zero_s, g_cmp_r, g_cmp_s, g_oncurve, g_infty, g_infty_q, g_cmpsec;
 size_t g_cmpsec_len, g_last_mod_used, g_read_len, g_rsh_bits, g_ord_bits;
 int g_md_calls, g_mulsim_calls;
